@@ -94,7 +94,22 @@ def run_program(ctx, spec, prog):
         g += ["-solver2", "z3" if "z3-new" in spec.get("gosym", []) else "z3-new"]
     p = sh(g, check=False, timeout=3600)
     if p.returncode != 0:
-        return {"program": prog["name"], "error": "gosym failed: " + (p.stderr.decode() + p.stdout.decode())[-2000:]}
+        msg = (p.stderr.decode() + p.stdout.decode())[-2000:]
+        gen = os.path.basename(info.get("generated_file") or "")
+        if prog.get("variant") and ctx.prop == "C13" and gen and re.search(r"/tb/%s:\d+:\d+: " % re.escape(gen), msg) and os.path.exists(os.path.join(d, "p")) and not re.search(r"/p/[^:\s]+\.go:\d+:\d+: ", msg):
+            # C13: "the generated file must compile in the other package". Package p (same-package variant,
+            # same descriptor) type-checked - the loader got as far as tb - and the errors are inside the file
+            # the plugin generated for the separate package.
+            errs = re.findall(r"/tb/%s:\d+:\d+: [^\n]*" % re.escape(gen), msg)[:5]
+            return {"program": prog["name"], "does_not_compile": errs, "info": info, "dir": d, "harnesses": [], "is_variant": True}
+        if ctx.prop == "C17" and gen:
+            # C17: the corpus' support package defines the hooks exactly under the documented names
+            # (GenSchema<S> / CopyFrom<S> / CopyTo<S>); a reference to an undefined hook in the generated file
+            # means the generator derived another suffix
+            und = re.findall(r"/%s:\d+:\d+: undefined: (?:GenSchema|CopyFrom|CopyTo)\w+" % re.escape(gen), msg)
+            if und:
+                return {"program": prog["name"], "undefined_hooks": und[:6], "info": info, "dir": d, "harnesses": []}
+        return {"program": prog["name"], "error": "gosym failed: " + msg}
     res = json.load(open(res_path))
     res["program"] = prog["name"]
     res["dir"] = d
@@ -170,6 +185,30 @@ def judge(ctx, spec, res):
         open(os.path.join(bd, "replay.sh"), "w").write("#!/bin/sh\ncd %s && exec python3 check.py %s --replay %s\n" % (VERIF, ctx.prop, bd))
         os.chmod(os.path.join(bd, "replay.sh"), 0o755)
         ctx.violations.append(("%s/diff: the variant's generated file has no %s" % (ctx.prop, ", ".join(res["missing_functions"])), res["program"], bd))
+        return
+    if res.get("undefined_hooks"):
+        bd = os.path.join(VERIF, "replays", ctx.prop, "%s-undefined-hooks-%d" % (re.sub(r"[^A-Za-z0-9]+", "_", res["program"]), len(ctx.violations) + 1))
+        shutil.rmtree(bd, ignore_errors=True)
+        os.makedirs(bd)
+        json.dump({"property": ctx.prop, "level": "H", "program": res["program"], "errors": res["undefined_hooks"]}, open(os.path.join(bd, "replay.json"), "w"), indent=1)
+        gen = res["info"].get("generated_file")
+        if gen and os.path.exists(gen):
+            shutil.copy(gen, os.path.join(bd, "generated_terraform.go.txt"))
+        open(os.path.join(bd, "replay.sh"), "w").write("#!/bin/sh\ncd %s && exec python3 check.py %s --replay %s\n" % (VERIF, ctx.prop, bd))
+        os.chmod(os.path.join(bd, "replay.sh"), 0o755)
+        ctx.violations.append(("C17/hooks: the generated file calls a hook that is not the documented GenSchema<S>/CopyFrom<S>/CopyTo<S> (%s)" % res["undefined_hooks"][0][-80:], res["program"], bd))
+        return
+    if res.get("does_not_compile"):
+        bd = os.path.join(VERIF, "replays", ctx.prop, "%s-does-not-compile-%d" % (re.sub(r"[^A-Za-z0-9]+", "_", res["program"]), len(ctx.violations) + 1))
+        shutil.rmtree(bd, ignore_errors=True)
+        os.makedirs(bd)
+        json.dump({"property": ctx.prop, "level": "B", "program": res["program"], "errors": res["does_not_compile"]}, open(os.path.join(bd, "replay.json"), "w"), indent=1)
+        gen = res["info"].get("generated_file")
+        if gen and os.path.exists(gen):
+            shutil.copy(gen, os.path.join(bd, "generated_terraform.go.txt"))
+        open(os.path.join(bd, "replay.sh"), "w").write("#!/bin/sh\ncd %s && exec python3 check.py %s --replay %s\n" % (VERIF, ctx.prop, bd))
+        os.chmod(os.path.join(bd, "replay.sh"), 0o755)
+        ctx.violations.append(("C13/diff: the file generated for the separate package does not compile there (%s)" % res["does_not_compile"][0][-120:], res["program"], bd))
         return
     if "error" in res:
         ctx.errors.append("%s: %s" % (res["program"], res["error"]))
@@ -331,6 +370,26 @@ def do_replay(prop, path):
         import klevel
         info["path"] = path
         return klevel.replay_bundle(ctx, info)
+    if info.get("level") == "H":
+        d = os.path.join(ctx.work, "h")
+        sh([os.path.join(VERIF, "bin/corpus"), "build", "-program", info["program"], "-plugin", ctx.plugin, "-out", d, "-kl", "1", "-km", "1", "-families", "custom"], timeout=600)
+        p = sh(["go", "build", "./p/"], cwd=d, check=False, timeout=900)
+        if re.search(r"undefined: (?:GenSchema|CopyFrom|CopyTo)\w+", p.stderr.decode()):
+            print(p.stderr.decode()[-1500:])
+            print("VIOLATION property=%s replay=%s" % (prop, path))
+            return 1
+        print("replay does not fail on this tree")
+        return 0
+    if info.get("level") == "B":
+        d = os.path.join(ctx.work, "b")
+        sh([os.path.join(VERIF, "bin/corpus"), "build", "-variant", info["program"], "-plugin", ctx.plugin, "-out", d, "-kl", "1", "-km", "1"], timeout=600)
+        p = sh(["go", "build", "./tb/"], cwd=d, check=False, timeout=900)
+        if p.returncode != 0:
+            print(p.stderr.decode()[-1500:])
+            print("VIOLATION property=%s replay=%s" % (prop, path))
+            return 1
+        print("replay does not fail on this tree")
+        return 0
     if info.get("level") == "M":
         d = os.path.join(ctx.work, "m")
         p = sh([os.path.join(VERIF, "bin/corpus"), "build", "-variant", info["program"], "-plugin", ctx.plugin, "-out", d, "-kl", "1", "-km", "1"], timeout=600)
